@@ -466,6 +466,18 @@ var messages = []message{
 	m("dpos", dmsg.CmdResponseInactiveArbitrators, capNone, true, func() p2p.Message { return new(dmsg.ResponseInactiveArbitrators) }, nil),
 	m("dpos", dmsg.CmdResponseRevertToDPOS, capNone, true, func() p2p.Message { return new(dmsg.ResponseRevertToDPOS) }, nil),
 	m("dpos", dmsg.CmdResetConsensusView, capNone, true, func() p2p.Message { return new(dmsg.ResetView) }, nil),
+	// the DPoS network also carries blocks (types.Block) and transactions
+	m("dpos", p2p.CmdBlock, cap16M, true, func() p2p.Message { return msg.NewBlock(new(types.Block)) },
+		func(t *rapid.T, f *gen.Filler) p2p.Message {
+			return msg.NewBlock(gen.GenBlock(t, smallBlockOpts(f), 0, 3))
+		}),
+	m("dpos", p2p.CmdTx, cap16M, true,
+		func() p2p.Message {
+			return msg.NewTx(&lazyTx{})
+		},
+		func(t *rapid.T, f *gen.Filler) p2p.Message {
+			return msg.NewTx(gen.GenTx(t, gen.TxOpts{Ring: f.Ring, MaxAttrs: 2, MaxInputs: 2, MaxOutputs: 3, MaxPrograms: 2, Budget: f.Budget, UndefinedVersions: true}))
+		}),
 	m("dpos", "reject", cap16M, false, func() p2p.Message { return new(dmsg.Reject) }, nil),
 	m("dpos", "daddr", cap16M, false, func() p2p.Message { return new(dmsg.Daddr) }, nil),
 }
